@@ -762,9 +762,13 @@ func (c *Client) Start() (addr net.Addr, err error) {
 		}
 		// os.MkdirTemp creates folders with 0o700, so if we have a group
 		// configured we need to make it group-writable.
+		// Until there is a runner, Kill has nothing to act on and will not
+		// remove the directory: remove it here if we fail before that.
 		if c.unixSocketCfg.Group != "" {
 			err = setGroupWritable(c.unixSocketCfg.socketDir, c.unixSocketCfg.Group, 0o770)
 			if err != nil {
+				os.RemoveAll(c.unixSocketCfg.socketDir)
+				c.unixSocketCfg.socketDir = ""
 				return nil, err
 			}
 		}
@@ -773,6 +777,8 @@ func (c *Client) Start() (addr net.Addr, err error) {
 
 		runner, err = c.config.RunnerFunc(c.logger, cmd, c.unixSocketCfg.socketDir)
 		if err != nil {
+			os.RemoveAll(c.unixSocketCfg.socketDir)
+			c.unixSocketCfg.socketDir = ""
 			return nil, err
 		}
 	default:
